@@ -580,6 +580,68 @@ def _rewrite_map_collect(body, applied):
     return body
 
 
+def _rewrite_zip_chunks(body, applied):
+    """R30: `for (a, c) in X.iter_mut().zip(Y[..K].chunks_exact(C)) { *a = u64_from_{le,be}_bytes(c.try_into().expect("..")); }`
+    is desugared to the index loop it denotes (std semantics of iter_mut / zip / chunks_exact: A-STD):
+        { let src_ = &Y[..K]; let n_ = zip_len(X.len(), src_.len() / C); let mut i_: usize = 0;
+          while i_ < n_ { X[i_] = u64_from_{le,be}_chunk(src_, i_, C); i_ = i_ + 1; } }
+    The slicing `Y[..K]` keeps its bounds check, `/ C` the non-zero check of chunks_exact, and the stand-in requires C == 8
+    (what `try_into().expect(..)` demands). `src_`, `n_`, `i_` are generated names the loop invariant may use."""
+    rx = re.compile(r'\bfor\s*\(\s*(\w+)\s*,\s*(\w+)\s*\)\s+in\s+(\w+)\s*\.\s*iter_mut\(\)\s*\.\s*zip\(\s*(\w+)\[\s*\.\.\s*([^\]]+?)\s*\]\s*\.\s*chunks_exact\(\s*([^()]+?)\s*\)\s*\)\s*\{'
+                    r'\s*\*\1\s*=\s*u64(?:_|::)from_(le|be)_bytes\(\s*\2\s*\.\s*try_into\(\)\s*\.\s*expect\(\s*"[^"]*"\s*\)\s*\)\s*;\s*\}')
+    m = rx.search(body)
+    if not m:
+        raise Unsupported("R30: `.iter_mut().zip(..)` loop not of the form `for (a, c) in X.iter_mut().zip(Y[..K].chunks_exact(C)) { *a = u64::from_le_bytes(c.try_into().expect(..)); }`")
+    a, c, X, Y, K, C, end = m.groups()
+    new = f"""{{ let src_ = &{Y}[..{K}]; let n_ = zip_len({X}.len(), src_.len() / {C}); let mut i_: usize = 0;
+            while i_ < n_
+            {{
+                {X}[i_] = u64_from_{end}_chunk(src_, i_, {C});
+                i_ = i_ + 1;
+            }}
+        }}"""
+    applied.append(("R30", f"for ({a}, {c}) in {X}.iter_mut().zip({Y}[..{K}].chunks_exact({C}))", "index loop over zip_len / u64_from_%s_chunk (A-STD)" % end))
+    return body[:m.start()] + new + body[m.end():]
+
+
+def _rewrite_zip_fold(body, applied):
+    """R32: `A.zip(B).fold(INIT, |acc, (x, y)| BODY)` (A, B local iterators) is desugared to the loop it denotes (std semantics of
+    Zip::next -- `let x = a.next()?; let y = b.next()?;`, the left iterator first -- and of Iterator::fold: A-STD):
+        { let mut a_ = A; let mut b_ = B; let mut acc_ = INIT; let ghost a0_ = iter_seq(a_); let ghost b0_ = iter_seq(b_);
+          loop { let x_ = match std_next(&mut a_) { Some(v_) => v_, None => { break; } };
+                 let y_ = match std_next(&mut b_) { Some(v_) => v_, None => { break; } };
+                 let ghost acc0_ = acc_;
+                 acc_ = { let acc = acc_; let (x, y) = (x_, y_); BODY }; }
+          acc_ }
+    `a_`, `b_`, `acc_`, `a0_`, `b0_`, `x_`, `y_`, `acc0_` are generated names the loop invariant may use."""
+    sb = Src("<b>", body)
+    clean = "".join(c if sb.mask[i] else " " for i, c in enumerate(body))
+    m = re.search(r'\b(\w+)\s*\.\s*zip\s*\(\s*(\w+)\s*\)\s*\.\s*fold\s*\(', clean)
+    if not m:
+        raise Unsupported("R32: `.zip(..).fold(..)` not of the form `A.zip(B).fold(INIT, |acc, (x, y)| BODY)`")
+    A, B = m.group(1), m.group(2)
+    o = m.end() - 1
+    c = sb.match_close(o)
+    arg = body[o + 1:c]
+    parts = _split_top_commas(arg)
+    mc = re.match(r'\s*\|\s*(\w+)\s*,\s*\(\s*(\w+)\s*,\s*(\w+)\s*\)\s*\|\s*(.*)$', ",".join(parts[1:]), re.S) if len(parts) >= 2 else None
+    if not mc:
+        raise Unsupported("R32: fold closure not of the form `|acc, (x, y)| BODY`")
+    init = parts[0].strip()
+    acc, x, y, b = mc.group(1), mc.group(2), mc.group(3), mc.group(4).strip()
+    new = f"""{{ let mut a_ = {A}; let mut b_ = {B}; let mut acc_ = {init}; let ghost a0_ = iter_seq(a_); let ghost b0_ = iter_seq(b_);
+            loop
+            {{
+                let x_ = match std_next(&mut a_) {{ Some(v_) => v_, None => {{ break; }} }};
+                let y_ = match std_next(&mut b_) {{ Some(v_) => v_, None => {{ break; }} }};
+                let ghost acc0_ = acc_;
+                acc_ = {{ let {acc} = acc_; let ({x}, {y}) = (x_, y_); {b} }};
+            }}
+            acc_ }}"""
+    applied.append(("R32", f"{A}.zip({B}).fold(INIT, |{acc}, ({x}, {y})| BODY)", "loop over std_next of both iterators, left first (A-STD)"))
+    return body[:m.start()] + new + body[c + 1:]
+
+
 def _tail_start(body):
     """offset in `body` ('{...}') where the tail expression starts (after the last top-level statement)"""
     s = Src("<b>", body)
@@ -764,6 +826,10 @@ def build_fn(unit, item, imp, fnitem, spec: Fn, cover=False):
         body = _rewrite_rev_range(body, applied)
     if re.search(r'\.\s*chunks\s*\(', body):
         body = _rewrite_chunk_fold(body, applied)
+    if re.search(r'\.\s*iter_mut\(\)\s*\.\s*zip\(', body):
+        body = _rewrite_zip_chunks(body, applied)
+    elif re.search(r'\.\s*zip\s*\(', body) and re.search(r'\.\s*fold\s*\(', body):
+        body = _rewrite_zip_fold(body, applied)
     if getattr(unit, "tail_assert", False):
         body = _rewrite_early_return(body, applied)
     # R18: unroll constant-bound `for` loops (no invariant needed, so no reference to the body's locals)
